@@ -56,6 +56,10 @@ def pool(ck: Check, pairs=False):
             for pos in range(len(sk) + 1):
                 for f in FAULTS:
                     scen.append((login, sk[:pos] + f + sk[pos:], f"1fault@{pos}"))
+                    if tail in ("steady", "disc"):
+                        # … and the same with the environment falling silent after the fault (nothing else ever
+                        # completes: whatever is still suspended must be released by the close itself)
+                        scen.append((login, sk[:pos] + f, f"1fault@{pos}+silence"))
     if pairs:
         sks = [(l, skeleton(l, t)) for l in (False, True) for t in ("steady", "disc", "peer", "silent")]
         for login, sk in sks:
